@@ -8,7 +8,7 @@ extern "C" void h_c10_setup() {
     "harmonic {\n name hok\n colvars ok\n centers 2.0\n forceConstant 2.0\n}\n");
 }
 static void place(cvm::real x) { e2e_pos(0, 0.0, 0.0, 0.0); e2e_pos(1, x, 0.0, 0.0); e2e_pos(2, 0.0, 1.0, 0.0); e2e_pos(3, 0.0, 0.0, 1.5); }
-static std::string tokI(const char *n, long lo, long hi) { return std::string(verif_token_int(n, lo, hi)); }
+static std::string tokI(const char *n, long lo, long hi) { long k = verif_param("range_scale", 1); return std::string(verif_token_int(n, lo * k, hi * k)); }
 static std::string tokD(const char *n) { return std::string(verif_token_double(n)); }
 
 // after configuration (accepted or rejected): a few steps and the output requests must run; previously defined objects behave as before
